@@ -54,3 +54,21 @@ Theorem C02_eof_drains : forall P prs skip k s s1, next_packet skip s = (Err E_n
   next_data_loop P prs skip (S k) s = drain P prs (S (length (d_pool s1))) s1.
 Proof. exact eof_drains. Qed.
 Print Assumptions C02_eof_drains.
+
+(* ---- the accumulator and the pool of the theorems above ARE the source ----
+   Gen/PoolGen.v is translated from the current /repo/packet_pool.go on every run (go/gen/stateful.go): the body of
+   packetAccumulator.add and of packetPool.addUnlocked, statement by statement. acc_add / pool_add, about which every
+   theorem of this file speaks, are those regenerated functions (isPSIComplete instantiated with its hand-written
+   model, the program map with its membership test, the map of accumulators with the model's association list).
+   A change to the body of add / addUnlocked therefore breaks these proofs — no generated case has to hit it. *)
+Require Import Gen.PoolGen Proofs.PoolGenEq.
+
+Theorem C02_acc_is_source : forall pm pid q p,
+  acc_add pm pid q p = packetAccumulator_add is_psi_complete pid (Some (pm_mem pm)) q p.
+Proof. exact acc_add_is_generated. Qed.
+Print Assumptions C02_acc_is_source.
+
+Theorem C02_pool_is_source : forall pm pl p,
+  pool_add pm pl p = packetPool_addUnlocked (gen_get pm) gen_set is_psi_complete pl (Some (pm_mem pm)) p.
+Proof. exact pool_add_is_generated. Qed.
+Print Assumptions C02_pool_is_source.
